@@ -31,6 +31,19 @@ def run_one(m):
             for e in edits:
                 p = os.path.join(s, e["file"])
                 txt = open(p).read()
+                if "renames" in e:
+                    # rename identifiers (word boundaries) inside the region [start marker, end marker)
+                    a = txt.index(e["start"])
+                    b = txt.index(e["end"], a + len(e["start"]))
+                    region = txt[a:b]
+                    for old_, new_ in e["renames"].items():
+                        region2 = re.sub(r"(?<![A-Za-z0-9_>.:])%s(?![A-Za-z0-9_])" % re.escape(old_), new_, region)
+                        if region2 == region:
+                            return m, "EDIT-FAILED", "%s: identifier %s not found in region" % (e["file"], old_)
+                        region = region2
+                    txt = txt[:a] + region + txt[b:]
+                    open(p, "w").write(txt)
+                    continue
                 cnt = txt.count(e["old"])
                 if cnt != e.get("count", 1):
                     return m, "EDIT-FAILED", "%s: expected %d occurrence(s) of %r, found %d" % (e["file"], e.get("count", 1), e["old"], cnt)
